@@ -151,8 +151,57 @@ def route(ctx, facts, b):
                 ctx.ob("ROUTE", "send:yields-none", "'None'" in ee and "try_next" not in ee.replace("TryStreamExt::try_next", "", 0)[:0] or "'None'" in ee, "a sent record is not also kept locally", site_of(b, o))
 
 
+def _is_next_option(e):
+    """the Option that `input.try_next().await?` evaluates to"""
+    return isinstance(e, tuple) and e[0] == "proj" and e[2:] == ("as:Continue", "0") and e[1][0] == "call" and e[1][1].endswith("Try::branch")
+
+
+def _ends_unclosed(b, facts, close_bbs, end_bbs):
+    """Is an end-of-stream return reachable from the entry without entering the close loop?  Reachability over
+    (block, what is known about the Option from try_next: unknown / Some / None): an edge that contradicts what an earlier
+    test of the same Option established is not taken, so `if next.is_none() { close all } ... match next { None => end }`
+    is recognised as closing before every end."""
+    from rules.C17 import variant_arms
+    arms_at = {}
+    for sw, pl, arms in variant_arms(b, "std::option::Option", facts):
+        if _is_next_option(flow.expr_of(b, {"cp": pl}, max_depth=6)):
+            arms_at[sw] = arms
+    know = {}
+    for tgt, f in flow.edge_guards(b):
+        if f[0] in ("true", "false") and f[1][0] == "call" and re.search(r"Option::<T>::is_(none|some)$", f[1][1]) and _is_next_option(f[1][2][0]):
+            none = f[1][1].endswith("is_none")
+            know[tgt] = "N" if (f[0] == "true") == none else "S"
+    seen = {(0, "U")}
+    work = [(0, "U")]
+    while work:
+        bb, st = work.pop()
+        if bb in end_bbs:
+            return True
+        for s_ in b.succs(bb):
+            if s_ in close_bbs:
+                continue
+            ns = st
+            new = None
+            if bb in arms_at:
+                a = arms_at[bb]
+                if s_ == a.get("None") and s_ != a.get("Some"):
+                    new = "N"
+                elif s_ == a.get("Some") and s_ != a.get("None"):
+                    new = "S"
+            if new is None and b.term(bb)["k"] == "switch" and s_ in know and len(b.preds(s_)) == 1:
+                new = know[s_]
+            if new is not None:
+                if st != "U" and st != new:
+                    continue            # contradicts an earlier test of the same value
+                ns = new
+            if (s_, ns) not in seen:
+                seen.add((s_, ns))
+                work.append((s_, ns))
+    return False
+
+
 def close_all(ctx, facts, b):
-    ctx.rule("PAIR-close: on the input-exhausted edge every value of send_channels is closed with its last record id before Ok(None)")
+    ctx.rule("PAIR-close: on the input-exhausted edge every value of send_channels is closed with its last record id before Ok(None); every close call is dominated by the Continue edge of `?` on input.try_next() and lies on the None side of its Option (never on an error path)")
     dom = b.dominators()
     cl = flow.find_calls(b, re.compile(r"::close$"))
     vals = flow.find_calls(b, re.compile(r"HashMap::<K, V, S, A>::values$"))
@@ -174,8 +223,24 @@ def close_all(ctx, facts, b):
                 ee = flow.expr_of(b, st["r"]["ops"][0])
                 if ee[0] == "agg" and ee[1] == ("std::option::Option", "None"):
                     nones.append(o)
-    okn = bool(nones) and all(flow.dominates(dom, vals[0][0], o) for o in nones)
+    okn = bool(nones) and not _ends_unclosed(b, facts, {x for x, _ in vals}, set(nones))
     ctx.ob("PAIR-close", "ok-none-after-close-loop", okn, "the send stream ends only after the close loop ran" if okn else "the send stream can end without closing the channels", site_of(b, nones[0]) if nones else site_of(b))
+    # closing is the only end-of-data signal a receiving shard gets: it may happen only once the input has ended
+    # cleanly - after the `?` on try_next took its Continue edge and on the None side of the unwrapped Option.  Closed
+    # on an error path, the peers take what they got so far for the complete set and return Ok.
+    from rules.C17 import variant_arms
+    tn = try_next[0][0] if try_next else None
+    stn = flow.settled(b, tn) if tn is not None else None
+    q = stn["q"] if stn else None
+    opt = [x for x in variant_arms(b, "std::option::Option", facts) if _is_next_option(flow.expr_of(b, {"cp": x[1]}, max_depth=6))]
+    for k, (cbb, ctt) in enumerate(cl):
+        after_q = q is not None and flow.dominates(dom, q[1], cbb)
+        none_side = any("None" in arms and flow.dominates(dom, arms["None"], cbb) and not ("Some" in arms and arms["Some"] == arms["None"]) for _, _, arms in opt) \
+            or flow.holds(b, dom, cbb, lambda f: f[0] in ("true", "false") and f[1][0] == "call" and _is_next_option(f[1][2][0] if f[1][2] else None) and ((f[0] == "true" and f[1][1].endswith("Option::<T>::is_none")) or (f[0] == "false" and f[1][1].endswith("Option::<T>::is_some"))))
+        okc = after_q and none_side
+        ctx.ob("PAIR-close", f"close#{k}:only-after-clean-end-of-input", okc, "channels are closed only after try_next()? yielded None" if okc else
+               ("the channels are closed on a path on which the input may have failed (before the `?` on try_next): the peer shards see a clean end of data, keep what they received so far and complete successfully with records missing" if not after_q else
+                "the channels are closed on a path that is not the end of the input (not under the None arm of try_next): peers see the end of data early"), site_of(b, cbb))
     st = flow.settled(b, cb)
     ctx.ob("PAIR-close", "close-awaited", st is not None, "close(..) is awaited" if st else "close(..) future is created but never awaited (nothing is closed)", site_of(b, cb))
 
@@ -351,7 +416,7 @@ def err_adapters(ctx, facts):
 def wrappers(ctx, facts):
     """The entry points most protocols use are thin wrappers around reshard_try_stream; the fan-in of the receive side
     covers every peer shard exactly once and labels each item with the shard it came from."""
-    ctx.rule("WRAP: reshard_stream = reshard_try_stream(ctx, input.map(Ok), picker) and reshard_iter = reshard_stream(ctx, stream::iter(input), picker), results returned unchanged; recv_from_shards = select_all over peer_shards() of shard_recv_channel(origin) with every item labelled by that same origin")
+    ctx.rule("WRAP: reshard_stream = reshard_try_stream(ctx, input.map(Ok), picker) and reshard_iter = reshard_stream(ctx, stream::iter(input), picker), results returned unchanged; recv_from_shards = select_all over peer_shards() of shard_recv_channel(origin) with every item labelled by that same origin; peer_shards() = ShardIndex::iter(shard_count()) filtered by `!= shard_id()` and ShardIndex::iter = (0..n).map(ShardIndex)")
     flow_old = flow.CLOSURE_DEFS
     flow.CLOSURE_DEFS = True
     try:
@@ -405,5 +470,33 @@ def wrappers(ctx, facts):
                 r2 = flow.expr_of(lab, {"cp": [0]}, max_depth=8)
                 okl = r2[0] == "agg" and r2[1] == "tuple" and len(r2[2]) == 2 and r2[2][0][0] == "upvar" and r2[2][1] == ("arg", 2)
             ctx.ob("WRAP", "recv_from_shards:labelled-with-origin", okp and okl, "items of shard_recv_channel(origin) are labelled (origin, item)" if okp and okl else "a received item is not labelled with the shard whose channel it came from (rows are filed under the wrong origin: global order differs between helpers)", site_of(per) if per is not None else site_of(b))
+        # peer_shards(): every shard index below shard_count() except this shard's own, each once
+        pb = facts.bodies.get("sharding::ShardConfiguration::peer_shards")
+        ib = facts.bodies.get("sharding::ShardIndex::iter")
+        if pb is None or ib is None:
+            ctx.missing("WRAP", "ShardConfiguration::peer_shards / ShardIndex::iter")
+        else:
+            ctx.count(bodies=2)
+            ret = flow.expr_of(pb, {"cp": [0]}, max_depth=10)
+            why = None
+            if not (ret[0] == "call" and ret[1].endswith("Iterator::filter") and ret[2][0] == ("call", "sharding::ShardIndex::iter", (("call", "sharding::ShardConfiguration::shard_count", (("arg", 1),)),))):
+                why = "peer_shards() is not a filter over ShardIndex::iter(self.shard_count())"
+            else:
+                cl = ret[2][1]
+                cb = facts.bodies.get(cl[1][1]) if cl[0] == "agg" and isinstance(cl[1], tuple) else None
+                caps = cl[2] if cb is not None else ()
+                pred = flow.expr_of(cb, {"cp": [0]}, max_depth=8) if cb is not None else None
+                this = ("call", "sharding::ShardConfiguration::shard_id", (("arg", 1),))
+                def is_item(e):
+                    return e[0] == "arg" and e[1] == 2
+                okp_ = pred is not None and ((pred[0] == "call" and pred[1].endswith("PartialEq::ne")) or (pred[0] == "bin" and pred[1] == "Ne")) and \
+                    len(caps) == 1 and caps[0] == this and sorted(1 if is_item(x) else 0 for x in (pred[2] if pred[0] == "call" else pred[2:4])) == [0, 1]
+                if not okp_:
+                    why = "the filter of peer_shards() is not `index != self.shard_id()`: a peer is left out (its records are never received and its channel never closed) or this shard is treated as its own peer"
+            it = flow.expr_of(ib, {"cp": [0]}, max_depth=8)
+            oki = it[0] == "call" and it[1].endswith("Iterator::map") and it[2][0] == ("agg", ("std::ops::Range", "Range"), (("const", 0), ("arg", 1, "0"))) and it[2][1] == ("fn", "sharding::ShardIndex")
+            if why is None and not oki:
+                why = "ShardIndex::iter() is not (0..count).map(ShardIndex): some shard index is skipped or visited twice"
+            ctx.ob("WRAP", "peer_shards:all-others-once", why is None, "peer_shards() = (0..shard_count) without this shard" if why is None else why, site_of(pb))
     finally:
         flow.CLOSURE_DEFS = flow_old
